@@ -279,7 +279,9 @@ PROPS = {
                       "hasher, in which order); CLI histories with file operations between runs, incl. a directed stream of boundary-shift pairs (a rename "
                       "plus an edit that moves bytes between a name and the neighbouring content); the monitor 'skipped although the commands were never "
                       "attempted on the present list of (path, content)' on the real observations.",
-        "level_note": "Trusted: Lean kernel; harness; glob expansion oracle; hashes uninterpreted (FpInj explicit).",
+        "level_note": "Trusted: Lean kernel; harness; glob expansion oracle; hashes uninterpreted (FpInj explicit). Open finding: method timestamp "
+                      "notices only a source newer than the newest generates file / marker (C05_detect_timestamp_partial); removal, rename, addition with "
+                      "an old mtime and edit with restored mtime go unnoticed (C05_timestamp_*_undetected, C05-timestamp-misses-non-mtime-changes).",
     },
     "C12": {
         "lean": "Props.C12",
@@ -592,6 +594,11 @@ FINDING_PREDICATES.update({
     "C12-dry-failed-call-removes-fingerprint": lambda m: (lambda f: bool(f) and f.get("kind") == "tree-changed" and f.get("mode") == "dry" and
                                                           f.get("exit") == "failed")(_mon(m, "c12")),
     "C05-dir-move-not-detected": _c05(lambda m, f: f.get("kind") == "change-not-detected" and f.get("samebases") == "1" and f.get("method") == "checksum"),
+    # method timestamp, skipped although the list of (path, content) of the sources differs from that of every attempt, and NO source
+    # is newer than the last attempt: a removal, a rename, an addition with an old mtime, an edit with a restored mtime — changes that
+    # leave no mtime trace, invisible to the method by design (srcnewer=1 — a source IS newer and the run was skipped — stays a violation)
+    "C05-timestamp-misses-non-mtime-changes": _c05(lambda m, f: f.get("kind") == "change-not-detected" and f.get("method") == "timestamp" and
+                                                   f.get("srcnewer") == "0" and f.get("op") in ("removal", "rename", "addition", "edit", "mixed")),
     # (FIXED by TS1)
     "C05-timestamp-missing-generates": _c05(lambda m, f: f.get("kind") == "missing-generates-skipped" and f.get("method") == "timestamp"),
 })
